@@ -187,6 +187,44 @@ pub fn same_content(t: &TyTab, a: &[bool; MAXW], b: &[bool; MAXW]) -> bool {
     eq
 }
 
+/// Number of tag paths of a type: the ways its (non-leaf) sum tags can be
+/// chosen from the root down. Word leaves count as one path.
+pub fn n_paths(t: &TyTab, node: usize) -> usize {
+    match t.kind[node] {
+        2 => n_paths(t, t.l[node]) + n_paths(t, t.r[node]),
+        3 => n_paths(t, t.l[node]) * n_paths(t, t.r[node]),
+        _ => 1,
+    }
+}
+
+/// Fix the tags of the non-leaf sums along tag path number `sel` (concrete);
+/// every other bit of `bits` (leaf data, padding) stays as it is (symbolic).
+/// CBMC cut (DESIGN 1.5): with symbolic tags the Vec worklists of the code
+/// under test hold symbolic pointers and symbolic execution does not finish.
+pub fn fix_tags(t: &TyTab, node: usize, bits: &mut [bool; MAXW], off: usize, sel: usize) {
+    match t.kind[node] {
+        2 => {
+            let (l, r) = (t.l[node], t.r[node]);
+            let w = t.w[node] - 1;
+            let nl = n_paths(t, l);
+            if sel < nl {
+                bits[off] = false;
+                fix_tags(t, l, bits, off + 1 + (w - t.w[l]), sel);
+            } else {
+                bits[off] = true;
+                fix_tags(t, r, bits, off + 1 + (w - t.w[r]), sel - nl);
+            }
+        }
+        3 => {
+            let (l, r) = (t.l[node], t.r[node]);
+            let nr = n_paths(t, r);
+            fix_tags(t, l, bits, off, sel / nr);
+            fix_tags(t, r, bits, off + t.w[l], sel % nr);
+        }
+        _ => {}
+    }
+}
+
 /// Symbolic padded bits: `w` meaningful positions, the rest false.
 pub fn any_bits(w: usize) -> [bool; MAXW] {
     let raw: u32 = kani::any();
